@@ -74,9 +74,16 @@ def _alarm(_s, _f):
     raise Timeout()
 
 
+def preload():
+    """import the implementation before any alarm is armed (an alarm firing inside an import leaves a half-initialised module)"""
+    import pytezos.michelson.repl  # noqa: F401
+    import pytezos.michelson.parse  # noqa: F401
+    G._hook_failwith()
+
+
 def run_guarded(case):
     old = signal.signal(signal.SIGALRM, _alarm)
-    signal.alarm(20)
+    signal.alarm(60)
     try:
         return G.run_impl(case)
     except Timeout:
@@ -177,6 +184,7 @@ def triple_check(ctx: lib.Ctx, name: str, coq_cases, obs_lits, ref_lits, label=N
 
 
 def collect(ctx: lib.Ctx, prop: str):
+    preload()
     cases = build_cases(ctx, prop)
     metas = []
     for case in cases:
@@ -205,7 +213,7 @@ def collect_contracts(ctx: lib.Ctx):
         c = G.gen_contract(ctx.rng, ctx.rng.choice([3, 8, ctx.n(12, 40)]))
         c['stream'] = 'contract'
         old = signal.signal(signal.SIGALRM, _alarm)
-        signal.alarm(20)
+        signal.alarm(60)
         try:
             o = G.run_contract(c)
         except Timeout:
@@ -256,7 +264,7 @@ def sessions(ctx: lib.Ctx, prop: str):
         c = G.gen_session(ctx.rng, ctx.rng.choice([3, 6, ctx.n(10, 30)]))
         c['stream'] = 'session'
         old = signal.signal(signal.SIGALRM, _alarm)
-        signal.alarm(30)
+        signal.alarm(90)
         try:
             o = G.run_session(c)
         except Timeout:
